@@ -1006,7 +1006,7 @@ fn main() {
     run.extra("factorial_cases", json!(cases.len()));
     run.drive_enum_par("factorial", cases, threads, |c| judge(&run, &specs, c, &selftest));
     if !child {
-        let n = run.scale(4000, 100000);
+        let n = run.scale(20000, 100000);
         run.drive_par("random", n, threads, case_strategy(specs.len()), |c| judge(&run, &specs, c, &selftest));
         if !run.quick() && run.replay.is_none() {
             strace_line(&run);
